@@ -143,9 +143,18 @@ func init() {
 			cs = append(cs, k)
 		}
 		sort.Strings(cs)
+		// the justification of a choice site is about the loop of its function (unique match, equivalent candidates,
+		// diagnostic only ...), not about how the chosen expression is spelled: a site whose exact text is not in the
+		// table is accepted when the table has a site of the same kind in the same function
+		coarse := map[string]string{}
+		for k, why := range choiceJustified {
+			coarse[coarseChoice(k)] = why
+		}
 		for _, k := range cs {
 			if why, ok := choiceJustified[k]; ok {
 				r.Add("C08-choice", k, res.Choice[k], core.Excepted, why)
+			} else if why, ok := coarse[coarseChoice(k)]; ok {
+				r.Add("C08-choice", k, res.Choice[k], core.Excepted, why+" (same function and kind of site as the reviewed one)")
 			} else {
 				r.Bad("C08-choice", k, res.Choice[k], "an order-dependent choice (which element of an unordered sequence comes first/last decides the effect) that is neither key-determined nor in the justification table: the result may differ between runs on the same resources")
 			}
@@ -154,6 +163,21 @@ func init() {
 		r.Assume("sort.Slice comparators are total on the rows they order (ties print identically)")
 		r.Assume("netset.DisjointIPBlocks and IPBlock.Union depend on their slice arguments as sets")
 	})
+}
+
+// coarseChoice: "<function>: <kind of choice site>" without the expression.
+func coarseChoice(k string) string {
+	i := strings.Index(k, ": ")
+	if i < 0 {
+		return k
+	}
+	fn, rest := k[:i], k[i+2:]
+	for _, kind := range []string{"constant index on unordered slice", "keyed store", "per-element store", "last-wins assignment", "first-match return", "first-match break", "call of"} {
+		if strings.HasPrefix(rest, kind) {
+			return fn + ": " + kind
+		}
+	}
+	return k
 }
 
 func firstWhy(res *ordertaint.Result) string {
